@@ -394,6 +394,62 @@ def job_long_lines(n):
     return acc
 
 
+FILE_SEPS = ['\x0b', '\x0c', '\x1c', '\x1d', '\x1e', '\x85', '\u2028', '\u2029', '\r', '\x00', '\ufeff', '\U0001F600']
+
+
+@worker
+def job_file_route(bi):
+    """The same text given as a file path: for every short corpus / base document and every position, one character that some line
+    splitters treat as a line end (VT, FF, FS, GS, RS, NEL, LS, PS, a lone CR) or that byte-level readers mishandle is inserted; the
+    builder must receive from TokenScanner(path) exactly the tokens it receives from the string."""
+    import os
+    import shutil
+    import tempfile
+    from gherkin.parser import Parser
+    from gherkin.token_scanner import TokenScanner
+    from gherkin.errors import ParserError
+    from .. import docspace as DS
+    acc = Acc()
+    base = DS.edit_bases(130)[bi]
+    tmp = tempfile.mkdtemp(prefix='c18-')
+    text = base
+    try:
+        path = os.path.join(tmp, 'doc.feature')
+        for i in range(len(base) + 1):
+            for c in FILE_SEPS:
+                text = base[:i] + c + base[i:]
+                case = {'kind': 'file-text', 'text': text}
+                acc.n += 1
+                acc.validated += 1
+                with open(path, 'w', encoding='utf8', newline='') as f:
+                    f.write(text)
+                a = I.tokens(text)
+                b = I.TokenRecorder()
+                try:
+                    Parser(b).parse(TokenScanner(path))
+                    st = 'ok'
+                except ParserError:
+                    st = 'errors'
+                except Exception as e:  # noqa: BLE001
+                    acc.violation('foreign-exception', case, 'token listing of the file raised %s: %s' % (type(e).__name__, e))
+                    continue
+                if a[0] == 'exc':
+                    acc.violation('foreign-exception', case, 'token listing of the string raised ' + a[1])
+                    continue
+                acc.nontrivial += 1
+                acc.outcomes['file:' + st] += 1
+                got = [token_fields(t) for t in b.tokens()]
+                exp = [token_fields(t) for t in a[2]]
+                if got != exp or (st == 'ok') != (a[0] == 'ok'):
+                    j = next((j for j, (x, y) in enumerate(zip(got, exp)) if x != y), min(len(got), len(exp)))
+                    acc.violation('file-vs-string-tokens', case, 'token %d delivered from the file differs from the token delivered from the same text as a string (%d / %d tokens)' % (j, len(got), len(exp)),
+                                  observed=got[j:j + 1], expected=exp[j:j + 1])
+    finally:
+        shutil.rmtree(tmp, ignore_errors=True)
+    acc.sample({'text': text[:200]})
+    return acc
+
+
 def run(ctx):
     probs = R.selftest()
     ctx.selftest(not probs, 'reference pipeline reproduces the acceptance corpus (%s)' % (probs[:3] or 'ok'))
@@ -413,6 +469,7 @@ def run(ctx):
     ctx.level('size boundaries: long tag/comment/blank runs', [job_long_runs.job(st) for st in la_states()])
     ctx.level('size boundaries: long lines', [job_long_lines.job(n) for n in LONG])
     ctx.level('abandoned parse, then the next parse', [job_after_abort.job(i) for i in range(len(ABORTS))])
+    ctx.level('the same text as a file: line-separator look-alikes at every position of the short documents', [job_file_route.job(bi) for bi in range(len(DS.edit_bases(130)))])
     k_full, k_core = ctx.pick((2, 2), (3, 3))
     DS.run_levels(ctx, __name__, k_full, k_core)
     ctx.notes['lookahead_states'] = la_states()
@@ -428,6 +485,25 @@ def replay(case):
                 acc.merge(job_after_abort(i))
     elif case.get('kind') == 'corpus':
         acc.merge(job_corpus(case['path']))
+    elif case.get('kind') == 'file-text':
+        import os
+        import tempfile
+        from gherkin.parser import Parser
+        from gherkin.token_scanner import TokenScanner
+        from gherkin.errors import ParserError
+        with tempfile.TemporaryDirectory(prefix='c18-') as tmp:
+            path = os.path.join(tmp, 'doc.feature')
+            with open(path, 'w', encoding='utf8', newline='') as f:
+                f.write(case['text'])
+            b = I.TokenRecorder()
+            try:
+                Parser(b).parse(TokenScanner(path))
+            except ParserError:
+                pass
+            a = I.tokens(case['text'])
+            if [token_fields(t) for t in b.tokens()] != [token_fields(t) for t in a[2]]:
+                return ['tokens delivered from the file differ from the tokens delivered from the same text as a string']
+        return []
     else:
         check_text(case['text'], acc)
     return [v[0]['message'] + ' observed=%r expected=%r' % (v[0].get('observed'), v[0].get('expected')) for v in acc.viol.values()]
